@@ -7,6 +7,7 @@ import (
 	"fmt"
 	"go/token"
 	"go/types"
+	"sort"
 	"strings"
 
 	"golang.org/x/tools/go/ssa"
@@ -179,6 +180,35 @@ func checkC05(p *Program, r *Report) {
 			r.OK("R05.7", fmt.Sprintf("%d wrappers: cell goroutines never write the shared inputs or parameter views", nW))
 		}
 		r.Floor("R05.7", "wrappers", nW, 41)
+	}
+	// reading an array never writes it: parameter arrays and input blocks are read by every cell goroutine at once
+	{
+		r.Rule("R05.8", "reads are pure: no method of an array type other than the mutators (Set*, Apply*, CopyFrom) writes through its receiver — not the elements, not the stride/shape metadata, not a scratch field (effect summaries over every concrete array type of both back-ends); a getter that writes is a race between the cells that share the array")
+		nR := 0
+		for _, at := range arrayTypes(p) {
+			var names []string
+			for n := range at.method {
+				names = append(names, n)
+			}
+			sort.Strings(names)
+			for _, n := range names {
+				if strings.HasPrefix(n, "Set") || strings.HasPrefix(n, "Apply") || n == "CopyFrom" {
+					continue
+				}
+				f := at.method[n]
+				if f == nil || f.Blocks == nil {
+					continue
+				}
+				nR++
+				key := fmt.Sprintf("%s.%s.%s:pure-read", at.rel, at.named.Obj().Name(), n)
+				if w := eff.Mutates(f, 0); w != nil {
+					r.Fail("R05.8", key, p.Pos(w.site.Pos()), fmt.Sprintf("%s.%s writes through its receiver (%s): arrays are read concurrently by the cell goroutines (parameters, shared input blocks), so two cells reading race on it", at.named.Obj().Name(), n, w.what))
+				} else {
+					r.OK("R05.8", fmt.Sprintf("%s.%s.%s does not write its receiver", at.rel, at.named.Obj().Name(), n))
+				}
+			}
+		}
+		r.Floor("R05.8", "read methods of array types", nR, 100)
 	}
 	sites := goSites(p)
 	// package-level state reachable from goroutine bodies
@@ -520,6 +550,32 @@ func sameValue(a, b ssa.Value) bool {
 	oa, ob := origins(a), origins(b)
 	if len(oa) == 1 && len(ob) == 1 && oa[0] != nil && oa[0] == ob[0] {
 		return true
+	}
+	// the same sub-slice expression of the same slice: x[lo:hi] twice
+	if sa, ok := a.(*ssa.Slice); ok {
+		if sb, ok := b.(*ssa.Slice); ok {
+			same := func(x, y ssa.Value) bool {
+				if x == nil || y == nil {
+					return x == nil && y == nil
+				}
+				return sameValue(x, y)
+			}
+			if sameValue(sa.X, sb.X) && same(sa.Low, sb.Low) && same(sa.High, sb.High) && same(sa.Max, sb.Max) {
+				return true
+			}
+		}
+	}
+	// the same constant
+	if c1, ok := constInt(a); ok {
+		if c2, ok := constInt(b); ok && c1 == c2 {
+			return true
+		}
+	}
+	// the same arithmetic on the same operands (len(shape)-1 computed twice)
+	if ba, ok := a.(*ssa.BinOp); ok {
+		if bb, ok := b.(*ssa.BinOp); ok && ba.Op == bb.Op && sameValue(ba.X, bb.X) && sameValue(ba.Y, bb.Y) {
+			return true
+		}
 	}
 	// len(x) of the same slice
 	ca, ok1 := a.(*ssa.Call)
